@@ -119,7 +119,7 @@ var (
 	reLabel     = regexp.MustCompile(`^\[([\w\-.#]+)\]\s*`)
 	reLoop      = regexp.MustCompile(`^loop\s+(\d+)\s+invariant\s*`)
 	reAtCall    = regexp.MustCompile(`^(at|after)\s+call\s+(\S+)\s+#(\d+|\*)\s+(assert|ghost|assume)\s*`)
-	reAtReturn  = regexp.MustCompile(`^at\s+return\s+#?(\d+|\*)\s+(assert|ghost)\s*`)
+	reAtReturn  = regexp.MustCompile(`^at\s+return\s+#?(\d+|\*)\s+(?:inscope\((\w+)\)\s+)?(assert|ghost)\s*`)
 	reAtAssign  = regexp.MustCompile(`^at\s+assign\s+(\w+)\s+#(\d+|\*)\s+(assert|ghost|assume)\s*`)
 	reAtEntry   = regexp.MustCompile(`^at\s+entry\s+(ghost|assume)\s*`)
 	reAtLoop    = regexp.MustCompile(`^at\s+loop\s+(\d+)\s+(body|exit|init)\s+(assert|ghost|assume)\s*`)
@@ -394,11 +394,12 @@ func ParseContractFile(path, pkgPath string) (*PkgContracts, error) {
 				cur.Anchored = append(cur.Anchored, c)
 			case reAtReturn.MatchString(t):
 				m := reAtReturn.FindStringSubmatch(t)
-				c, err := anchoredClause(m[2], t[len(m[0]):], mkClause)
+				c, err := anchoredClause(m[3], t[len(m[0]):], mkClause)
 				if err != nil {
 					return nil, err
 				}
 				c.AnchorKind = "return"
+				c.AnchorName = m[2] // inscope(x): only at the returns where local x is in scope
 				if m[1] != "*" {
 					c.AnchorOrd, _ = strconv.Atoi(m[1])
 				}
